@@ -33,6 +33,9 @@ int vf_close(int fd);
 FILE *vf_fopen(const char *path, const char *mode);
 size_t vf_fwrite(const void *ptr, size_t size, size_t n, FILE *f);
 int vf_fclose(FILE *f);
+void *vf_memcpy(void *dst, const void *src, size_t n);
+int vf_ferror(FILE *f);
+int vf_fflush(FILE *f);
 
 #ifdef VF_OS_REDIRECT
 #define malloc vf_malloc
@@ -46,6 +49,10 @@ int vf_fclose(FILE *f);
 #define fopen vf_fopen
 #define fwrite vf_fwrite
 #define fclose vf_fclose
+#define memcpy vf_memcpy
+#undef ferror
+#define ferror vf_ferror
+#define fflush vf_fflush
 #endif
 
 /* fault schedule: index (1-based) of the call of each kind that fails, 0 = none */
@@ -75,6 +82,13 @@ extern unsigned os_written_n;
 extern int os_fopen_live, os_fclose_ok;
 extern unsigned os_anon_len;       /* true size of the managed code mapping */
 unsigned char *os_code_base(void);  /* its current address (symbolic build) */
+/* contents model of the code mappings: the byte at one nondeterministic logical offset */
+extern unsigned os_probe_q;
+extern unsigned char os_probe_ref;  /* the same byte on the reference instance (caller buffer) */
+extern int os_probe_ref_set;
+int os_code_write(unsigned char *dest, unsigned len, long *off, int *slot);
+void os_probe_store(int slot, unsigned char v);
+int os_probe_read(const unsigned char *base, unsigned char *out);
 
 void os_schedule(int in_base);      /* binds the schedule from IN(in_base..) */
 #define OS_SCHEDULE_INPUTS (OS_NKIND + 2)
